@@ -42,7 +42,8 @@ REQUIRED_DIMS = ["N_active<N", "testparticle_type=1", "massless_particles", "var
                  "pending_list_realloc(>32)", "N_crosses_128", "step_mercurius", "step_trace", "step_whfast", "step_ias15",
                  "track_energy_offset_merge", "integrate_split_exact_finish_time", "copy_restore_midrun",
                  "file_restore_midrun", "user_add_remove_midrun", "free_particle_ap", "keep_sorted", "tree_gravity_direct_search", "hybrid_forced_keep_sorted", "radii_after_add_x_ghost_boxes_x_direct",
-                 "dt!=dt_last_done_x_line_searches", "pass_through_refined_cells"]
+                 "dt!=dt_last_done_x_line_searches", "pass_through_refined_cells",
+                 "particle_leaves_open_box_first_half", "particle_leaves_open_box_second_half"]
 VARIANT = ["0"] * 7      # RmVariant flags (5) + purge-flagged-at-end-of-search, determined in run()
 KSFALLBACK = [False]     # fixes/C13-keep-sorted-with-tree-fallback.diff applied? (probed in run())
 PURGE = [False]          # fixes/C13-tree-merge-remove-at-boundary.diff applied? (probed in run())
@@ -77,6 +78,7 @@ FACTORS = {
     "nvar": [0, 1],
     "touch": [0, 1],
     "com": [0, 1],
+    "leave": ["none", "first", "second"],             # a particle leaves an OPEN box during the first / second half of a full step
 }
 CORE3 = ("mode", "boundary", "ghost", "radii", "drive")      # 3-way coverage in the thorough tier
 
@@ -87,6 +89,8 @@ def pair_excluded(fa, va, fb, vb):
     g = d.get
     tree_mode = g("mode") in ("tree", "linetree")
     hyb = g("drive") in ("mercurius", "trace")
+    if g("leave") in ("first", "second") and (g("boundary") in ("none", "periodic", "shear") or (g("drive") is not None and g("drive") != "leapfrog") or g("geom") == "passthrough" or g("nvar") == 1 or g("com") == 1):
+        return "a particle can only leave an open box, during a full step of a moving integrator"
     if g("boundary") == "none" and g("ghost") in ("1", "2"):
         return "boundary none: every ghost box is the zero vector (images coincide)"
     if hyb and tree_mode:
@@ -122,7 +126,7 @@ def pair_excluded(fa, va, fb, vb):
 
 def repair(f):
     """drop demanded values until no excluded pair is left (the most specific factors give way first)"""
-    order = ["com", "nvar", "touch", "geom", "gravtree", "ghost", "nroot", "resolver", "drive", "mode"]
+    order = ["leave", "com", "nvar", "touch", "geom", "gravtree", "ghost", "nroot", "resolver", "drive", "mode"]
     f = dict(f)
     for victim in order:
         names = list(f)
@@ -132,7 +136,7 @@ def repair(f):
                 if pair_excluded(a, f[a], b, f[b]) and victim in (a, b):
                     bad = True
         if bad:
-            f[victim] = {"com": 0, "nvar": 0, "touch": 0, "geom": "cluster", "gravtree": 0, "ghost": "0", "nroot": "single",
+            f[victim] = {"leave": "none", "com": 0, "nvar": 0, "touch": 0, "geom": "cluster", "gravtree": 0, "ghost": "0", "nroot": "single",
                          "resolver": "script", "drive": "bare_eq", "mode": "direct"}[victim]
     return f
 
@@ -166,7 +170,7 @@ def factors_of(spec):
             "nact": int(spec.get("n_active") is not None), "tpt": int(bool(spec.get("tpt"))), "dtsign": "+" if spec["dt"] > 0 else "-",
             "nroot": "multi" if spec.get("nroot", [1, 1, 1]) != [1, 1, 1] else "single", "geom": spec.get("geom", "cluster"),
             "mcv": int("mcv" in spec), "nvar": int(bool(spec.get("nvar"))), "touch": int(bool(spec.get("exact_touch"))),
-            "com": int(bool(spec.get("com_offset")))}
+            "com": int(bool(spec.get("com_offset"))), "leave": spec.get("leave", "none")}
 
 
 PAIRS_SEEN = set()
@@ -560,6 +564,26 @@ def gen_spec(rng, idx, thorough=False, force=None):
             else:
                 for a in "xyz":
                     p[a] = max(-0.49 * E[a], min(0.49 * E[a], p[a]))
+        if boundary == "open" and ("leave" in F or rng.chance(0.35)):
+            # particles that leave the open box during this step: in the first half (dropped by the mid-step boundary check
+            # when a tree exists) or in the second half (dropped by the end-of-step check, before the collision search)
+            which = F["leave"] if F.get("leave") in ("first", "second") else (rng.choice(["first", "second", "second"]) if "leave" not in F else "none")
+            if which != "none":
+                for _l in range(rng.choice([1, 1, 2])):
+                    ai = rng.randint(0, 2)
+                    a = "xyz"[ai]
+                    sg = rng.choice([-1.0, 1.0])
+                    T = rng.uniform(0.1, 0.3) * E[a]
+                    f = rng.uniform(0.05, 0.45) if which == "second" else rng.uniform(0.55, 0.95)
+                    q = dict(id=8000 + 11 * _l + rng.randint(0, 9), m=rng.loguniform(1e-3, 1e1), r=rng.choice([0.0, 1e-2 * L, 5e-2 * L]),
+                             x=rng.uniform(-0.3, 0.3) * E["x"], y=rng.uniform(-0.3, 0.3) * E["y"], z=rng.uniform(-0.3, 0.3) * E["z"],
+                             vx=0.0, vy=0.0, vz=0.0)
+                    q[a] = sg * (E[a] / 2 + (f - 1.0) * T)          # start position; end = start + sg*T
+                    q["v" + a] = sg * T / spec["dt"]
+                    parts.insert(rng.randint(0, len(parts)), q)
+                spec["leave"] = which
+                if spec.get("n_active") is not None:
+                    spec["n_active"] = min(len(parts), spec["n_active"])
     if ch("mcv", 0.3) and ("res" not in spec or "mcv" in F):
         spec["mcv"] = rng.loguniform(1e-3, 1e2)
     if ch("teo", 0.5):
@@ -1029,6 +1053,13 @@ def scenario(c, W, exe_lines, spec, tag, stats):
                     % (col, list(A["maxr"]), rs[:2]), dict(spec=spec))
     stats["maxr_checked"] = stats.get("maxr_checked", 0) + 1
 
+    # ---- nothing flagged for removal (y = NaN) may be in the array the search runs on
+    if any(p[2] != p[2] and p[1] == p[1] for p in stateR):
+        c.violation("flagged-particle-at-search:" + col, "%s search: a particle flagged for removal (y = NaN; it left the open box during the step) is still in the particle array "
+                    "when the collision search runs (ids %s)" % (col, [p[0] for p in stateR if p[2] != p[2]]), dict(spec=spec))
+    if spec.get("leave", "none") != "none":
+        dim("particle_leaves_open_box_" + spec["leave"] + "_half")
+
     # ---- search oracle on the real code (does not use the model)
     line = col in ("line", "linetree")
     orc = oracle_pairs(spec, stateR, tab, A["dtl"], line) if spec["integrator"] in ("none", "leapfrog") and spec["boundary"] != "shear" else None
@@ -1305,7 +1336,61 @@ def scenario(c, W, exe_lines, spec, tag, stats):
                          dict(spec=spec, res=list(res), model_calls=got[:6], code_calls=callsB[:6]))
             stats["tie_fail"] += 1
         stats["tie_driver"] += 1
-    return checks, chk2_line, chk2
+    jobs2 = [(chk2_line, chk2)]
+    # ---- tie 3: what the step hands to the search after the open-boundary check (model `searchInputOpen`)
+    if spec["boundary"] == "open" and spec["integrator"] == "leapfrog" and not nvar:
+        hdt = 0.5 * spec["dt"]
+        cur = [dict(p) for p in spec["parts"]]
+        nr = spec.get("nroot", [1, 1, 1])
+        bx, bY, bz = spec["box"] * nr[0], spec["box"] * nr[1], spec["box"] * nr[2]
+        treeA = A["tree"]
+        teo = 1 if spec.get("teo") else 0
+        clamp = int(VARIANT[6]) if treeA else 0
+        na0 = -1 if spec.get("n_active") is None else spec["n_active"]
+
+        def drift(ps_):
+            for p_ in ps_:
+                p_["x"] = p_["x"] + hdt * p_["vx"]; p_["y"] = p_["y"] + hdt * p_["vy"]; p_["z"] = p_["z"] + hdt * p_["vz"]
+
+        def b_line(ps_, na):
+            tk = ["B", d2h(bx), d2h(bY), d2h(bz), str(int(treeA)), str(teo), str(clamp), str(na), str(len(ps_))]
+            for p_ in ps_:
+                tk.append(str(p_["id"]))
+                tk += [d2h(p_[k]) for k in ("x", "y", "z", "vx", "vy", "vz", "m", "r")] + [d2h(0.0)]
+            return " ".join(tk)
+        drift(cur)
+
+        def compare(outline):
+            t_ = outline.split()
+            ids_m = [int(x) for x in t_[2:]]
+            ids_c = [p[0] for p in stateA]
+            ok = (sorted(ids_m) == sorted(ids_c)) if treeA else (ids_m == ids_c)
+            if not ok:
+                c.corr_break("particles handed to the %s search after the open-boundary check of a leapfrog step: model %s code %s (%s)" % (
+                    col, ids_m, ids_c, tag), dict(spec=spec))
+                stats["tie_fail"] += 1
+            elif treeA and int(t_[1]) != A["N_active"] and not teo:
+                c.corr_break("N_active after the open-boundary check: model %s code %d (%s)" % (t_[1], A["N_active"], tag), dict(spec=spec))
+                stats["tie_fail"] += 1
+            stats["tie_step_input"] = stats.get("tie_step_input", 0) + 1
+        if treeA:
+            # with a tree the step also checks the boundary (and updates the tree) after the first half drift
+            li_b = len(exe_lines)
+            exe_lines.append(b_line(cur, na0))
+
+            def mk_end(out, li_b=li_b):
+                t_ = out[li_b].split()
+                keep = set(int(x) for x in t_[2:])
+                surv = [p_ for p_ in cur if p_["id"] in keep]
+                drift(surv)
+                return b_line(surv, int(t_[1]))
+            jobs2.append((mk_end, compare))
+        else:
+            drift(cur)
+            li_b = len(exe_lines)
+            exe_lines.append(b_line(cur, na0))
+            checks.append(lambda out, li_b=li_b: compare(out[li_b]))
+    return checks, jobs2
 
 
 def check_accounting(c, spec, stateA, B, callsB, kind, path, stats, reported=None):
@@ -2274,12 +2359,13 @@ def run(c):
         c.corr_break("driver returned %d lines for %d ops" % (len(out), len(lines)))
     else:
         lines2, back = [], []
-        for tag, spec, checks, mk, chk2 in pend:
+        for tag, spec, checks, jobs2 in pend:
             for ch in checks:
                 ch(out)
-            l2 = mk(out)
-            if l2 is not None:
-                lines2.append(l2); back.append(chk2)
+            for mk, chk2 in jobs2:
+                l2 = mk(out)
+                if l2 is not None:
+                    lines2.append(l2); back.append(chk2)
         c.log("pass 2: %d model lines" % len(lines2))
         out2 = run_driver(exe, lines2) if lines2 else []
         if len(out2) != len(lines2):
